@@ -631,6 +631,36 @@ def extension_fields_stream(ctx, res):
                     res.violate("C20:method-annotation", "a string annotation is not declared as it was written", dict(case, method=name, got=got_ann, want=want_ann))
 
 
+def helper_names_stream(ctx, res):
+    """`ApplicationModeField` adds one computed field `is_<mode>_mode` per mode: a mode name is either refused when the field is
+    declared (it cannot be part of an identifier: blanks, a trailing line break, `²`, `½`, `①`, a dash) or the stub that declares the
+    helper is valid Python — for schema, configuration and config type"""
+    import cincoconfig as cc
+    for modes in (["dev", "prod"], ["dev", "prod\n"], ["dev\n"], ["dev", "stage\u00b2"], ["phase\u00bd"], ["\u2460", "\u2461"], ["a b"], ["pre-prod"], ["dev", ""], ["D\u00e9v"],
+                  ["dev_1", "QA2"], ["\u0663"], ["x\r"], ["x\x0b"], ["x\x1c"], ["x\u2028"]):
+        case = {"stream": "helper-names", "modes": modes}
+        res.case(stable(case), kind="helper-names")
+        try:
+            s = cc.Schema()
+            s.mode = cc.ApplicationModeField(modes=list(modes), default=modes[0])     # at the root: a stub declares the fields of one level
+            s.workers = cc.IntField(default=1)
+        except Exception:  # noqa
+            res.hist["helper-names:refused-at-declaration"] += 1
+            continue
+        for via, target, args in (("schema", s, ("Modes",)), ("config", s(), ("Modes",)), ("ctype", cc.make_type(s, "Modes"), ())):
+            try:
+                text = cc.generate_stub(target, *args)
+                ast.parse(text)
+                compile(text, "<stub>", "exec")
+            except SyntaxError as e:
+                res.violate("C20:syntax:helper-name", "a mode name was accepted when the field was declared, but the stub that declares its helper field is not valid Python: %s" % e,
+                            dict(case, via=via))
+                break
+            except Exception as e:  # noqa
+                res.violate("C20:raised:%s:helper-name" % type(e).__name__, "generate_stub raised %s" % type(e).__name__, dict(case, via=via, error=str(e)[:80]))
+                break
+
+
 def run(ctx, n_quick=600, n_thorough=30000):
     res = Result()
     reqs, pend = [], []
@@ -638,6 +668,7 @@ def run(ctx, n_quick=600, n_thorough=30000):
         check_one(ctx, res, gen_spec(ctx.rng), reqs, pend)
     compare(ctx, res, reqs, pend)
     guard(res, "C20", extension_fields_stream, ctx, res)
+    guard(res, "C20", helper_names_stream, ctx, res)
     return res
 
 
